@@ -197,7 +197,7 @@ def r3(ctx):
                               "close_on_exec is applied to a listening socket outside Worker.init_process: the master's exec would close it", "only workers mark listeners close-on-exec")
                 else:
                     ctx.ok("C14.R3", site(ff, c), "not a listener")
-    ctx.floor("C14.R3", "close_on_exec call sites", n, 4)
+    ctx.floor("C14.R3", "close_on_exec call sites", n, 3)
     fr = ctx.fn(repo.func(ARB + ".reexec"))
     ex = calls_to(repo, fr, "os.exec*")
     okk = bool(ex) and "START_CTX" in norm(ex[0].args[0]) and "START_CTX" in norm(ex[0].args[1]) and isinstance(ex[0].args[2], ast.Name)
